@@ -253,6 +253,10 @@ const TEMPLATES: &[(&str, Option<&str>, &str)] = &[
     ),
     ("quotient of an un-annotated parameter compared with a str", None, "f :: fn p ->\n    (p / 2) > \"s\"\nend\n\nstart :: fn do\n    print(f(1.0))\nend\n"),
     ("quotient of an un-annotated parameter compared with the value of an else-less if", None, "f :: fn p, c ->\n    (p / 2) > (if c do\n        0.0\n    end)\nend\n\nstart :: fn do\n    print(f(1.0, false))\nend\n"),
+    ("un-annotated recursive function called with another type from a nested closure", None, "count :: fn x, n do\n    if n > 0 do\n        again :: fn do\n            count(\"oops\", n - 1)\n        end\n        again()\n    end\n    y :: x + 1\n    print(y)\nend\n\nstart :: fn do\n    count(1, 1)\nend\n"),
+    ("nested fold: inner callback returns the outer callback's list parameter where a str accumulates", None, "start :: fn do\n    x := fold([[\"l\"]], \"0\", pu h6, h7 ->\n            fold([9], h7, pu h8, h9 ->\n                    h6\n                end)\n        end)\n    print(x + \"-\")\nend\n"),
+    ("tuple by number with an un-annotated str element", None, "half :: fn x do\n    q :: (x, 1.0) / 2.0\n    print(q)\nend\n\nstart :: fn do\n    half(\"abc\")\nend\n"),
+    ("tuple subtraction with string elements", None, "start :: fn do\n    a := (\"ab\", 3)\n    b := (\"b\", 1)\n    print(a - b)\nend\n"),
     ("deferred tuple comparison applied to a str element", None, "lt :: fn p ->\n    (p, 1) < (6, 1)\nend\n\nstart :: fn do\n    s := \"x\"\n    print(lt(s))\nend\n"),
     ("deferred tuple subtraction applied to a str element", None, "sub :: fn p ->\n    (p, 1) - (6, 1)\nend\n\nstart :: fn do\n    s := \"x\"\n    print(sub(s))\nend\n"),
     ("tuple addition with string elements (sound: concatenation)", None, "start :: fn do\n    t := (1, \"a\") + (2, \"b\")\n    print(t)\n    u := t\n    u += (1, \"c\")\n    print(u)\nend\n"),
